@@ -341,7 +341,7 @@ class Check:
                 e['TRACE_FILE'] = tp
         w_ = workers or NCPU
         gc = ['-XX:+UseSerialGC', '-Xmx3g'] if w_ == 1 else ['-XX:+UseParallelGC', '-XX:ParallelGCThreads=%d' % min(8, w_), '-Xmx12g']
-        cmd = ['java'] + gc + ['-Xss64m', '-cp', JAR, 'tlc2.TLC', '-config', cfgpath,
+        cmd = ['java', '-Djava.io.tmpdir=' + meta] + gc + ['-Xss64m', '-cp', JAR, 'tlc2.TLC', '-config', cfgpath,
                '-metadir', os.path.join(meta, 'states'), '-noGenerateSpecTE',
                '-workers', str(workers or NCPU)]
         if not deadlock:
